@@ -1,6 +1,8 @@
 import PrioModel.Field
 import PrioModel.Messages
 import PrioModel.AggParam
+import PrioModel.FieldInst
+import PrioModel.Agg
 
 /-! Line-protocol driver: one request per line on stdin, one answer per line on stdout. -/
 open Prio
@@ -170,10 +172,60 @@ def handleAggValid (args : List String) : String :=
     | _, _ => "bad-op"
   | [] => "bad-op"
 
+/-- run `k` at the executable instance `Fin (q+1)` of the named field -/
+def withField (name : String) (k : (q : Nat) → (sz : Nat) → String) : String :=
+  match Msg.fieldSpec name with
+  | some F => match F.p with
+    | 0 => "bad-op"
+    | q + 1 => k q F.sz
+  | none => "bad-op"
+
+def hexVec (q sz : Nat) (h : String) : Option (List (Fin (q + 1))) := do
+  decodeFieldVec q sz (← parseHex h)
+
+def showVec {q : Nat} (sz : Nat) (r : Option (List (Fin (q + 1)))) : String :=
+  match r with
+  | some v => "ok " ++ toHex (encodeFieldVec sz v)
+  | none => "err"
+
+def handleMerge (args : List String) : String :=
+  match args with
+  | [f, a, b] => withField f fun q sz =>
+    match hexVec q sz a, hexVec q sz b with
+    | some x, some y => showVec sz (mergeVector x y)
+    | _, _ => "bad-op"
+  | _ => "bad-op"
+
+def handleAgg (args : List String) : String :=
+  match args with
+  | f :: init :: shares => withField f fun q sz =>
+    match hexVec q sz init, shares.mapM (hexVec q sz) with
+    | some i, some ss => showVec sz (aggregate i ss)
+    | _, _ => "bad-op"
+  | _ => "bad-op"
+
+def handleFvMerge (args : List String) : String :=
+  match args with
+  | [ka, a, kb, b] =>
+    withField "FP64" fun qi szi => withField "F255" fun ql szl =>
+      let mk (k h : String) : Option (FieldVec (Fin (qi + 1)) (Fin (ql + 1))) :=
+        if k == "I" then (hexVec qi szi h).map .inner else (hexVec ql szl h).map .leaf
+      match mk ka a, mk kb b with
+      | some x, some y =>
+        match FieldVec.merge x y with
+        | some (.inner v) => "ok I " ++ toHex (encodeFieldVec szi v)
+        | some (.leaf v) => "ok L " ++ toHex (encodeFieldVec szl v)
+        | none => "err"
+      | _, _ => "bad-op"
+  | _ => "bad-op"
+
 def handle (line : String) : String :=
   match line.trimAscii.toString.splitOn " " with
   | "fp" :: rest => handleFp rest
   | "dec" :: rest => handleDec rest
+  | "merge" :: rest => handleMerge rest
+  | "agg" :: rest => handleAgg rest
+  | "fvmerge" :: rest => handleFvMerge rest
   | "aggctor" :: rest => handleAggCtor rest
   | "aggvalid" :: rest => handleAggValid rest
   | ["unitvalid", n] => match n.toNat? with
